@@ -757,19 +757,23 @@ func (val Value) Modulo(other Value) Value {
 		return val
 	}
 
-	// FIXME: This is a bit clumsy. Should come back later and see if there's a
-	// more straightforward way to do this.
-	rat := val.Divide(other)
-	ratFloorInt, _ := rat.v.(*big.Float).Int(nil)
+	// Both operands are finite binary fractions, so the quotient truncated
+	// toward zero and the remainder can be computed exactly as rationals.
+	// (Rounding the quotient or the product to the precision of an operand
+	// first gives wrong remainders whenever the quotient has more bits than
+	// that.) The exact remainder always fits the larger operand precision.
+	v, o := val.v.(*big.Float), other.v.(*big.Float)
+	valRat, _ := v.Rat(nil)
+	otherRat, _ := o.Rat(nil)
+	quo := new(big.Rat).Quo(valRat, otherRat)
+	quoInt := new(big.Int).Quo(quo.Num(), quo.Denom()) // truncates toward zero
+	rem := new(big.Rat).Sub(valRat, quo.Mul(otherRat, quo.SetInt(quoInt)))
 
-	// start with a copy of the original larger value so that we do not lose
-	// precision.
-	v := val.v.(*big.Float)
-	work := new(big.Float).Copy(v).SetInt(ratFloorInt)
-	work.Mul(other.v.(*big.Float), work)
-	work.Sub(v, work)
-
-	return NumberVal(work)
+	prec := v.Prec()
+	if o.Prec() > prec {
+		prec = o.Prec()
+	}
+	return NumberVal(new(big.Float).SetPrec(prec).SetRat(rem))
 }
 
 // Absolute returns the absolute (signless) value of the receiver, which must
